@@ -622,8 +622,9 @@ static void plan_c12(void)
                 for (int x = 0; x < 7; x++) { memcpy(w, base, s.flen); put_le32(w + 55, bvs[x]); wire_seal(w, 0); C12("backend_version=%08x", bvs[x]); }
                 /* foreign fragment relabelled as ours: id and version of I */
                 memcpy(w, base, s.flen); w[54] = (uint8_t)I.be; put_le32(w + 55, golden_backend_version(I.be)); put_le32(w, 0); wire_seal(w, 0); C12("%s", "relabelled-as-instance-backend");
-                uint32_t lvs[] = { 1, 0x010100, 0x010200, LIB - 1, LIB, LIB + 1, 0xffffffffu, 0 };
-                for (int x = 0; x < 8; x++) for (int sl = 0; sl < 2; sl++) { memcpy(w, base, s.flen); put_le32(w + 63, lvs[x]); if (sl) wire_seal(w, 0); C12("libec_version=%08x/%s", lvs[x], sl ? "resealed" : "stale"); }
+                /* older versions whose minor or revision byte is LARGER than the running library's are still older */
+                uint32_t lvs[] = { 1, 0x010100, 0x010200, LIB - 1, LIB, LIB + 1, 0xffffffffu, 0, 0x010009, 0x0100ff, 0x0105ff, 0x000700, 0x0001ff, 0x00ffff, (LIB & 0xffff00) + 0x100, (LIB & 0xff0000) + 0x10000 };
+                for (int x = 0; x < 16; x++) for (int sl = 0; sl < 2; sl++) { memcpy(w, base, s.flen); put_le32(w + 63, lvs[x]); if (sl) wire_seal(w, 0); C12("libec_version=%08x/%s", lvs[x], sl ? "resealed" : "stale"); }
                 memcpy(w, base, s.flen); wire_byteswap_twin(w); C12("%s", "opposite-endian-twin");
                 /* opposite-endian fragments of old writers (their version word, byte-swapped, may look older than the running library) */
                 { static const uint32_t oldv[] = { 0x010000, 0x010100, 0x010009, 0x0101ff, 0x010200, 0x000001 };
@@ -716,8 +717,16 @@ static int isa_invertible(const struct shape *sh, uint32_t E)
     int ok = r == k && f_rank(M, k, k, gf8_mul16, gf8_inv16) == k;
     free(M); free(G); return ok;
 }
-enum { DMG_PAYLOAD_FIRST, DMG_PAYLOAD_MID, DMG_PAYLOAD_LAST, DMG_IDX, DMG_BACKEND_ID, DMG_BACKEND_VER, DMG_LIBVER, DMG_IDX_N1, DMG_IDX_2_31, DMG_IDX_MAX, DMG_BACKEND_VER_0, NDMG };
-static const char *dmg_name[NDMG] = { "payload-first", "payload-mid", "payload-last", "idx=k+m", "foreign-backend-id", "backend-version+1", "libec-version+1", "idx=k+m+1", "idx=2^31", "idx=2^32-1", "backend-version=0" };
+enum { DMG_PAYLOAD_FIRST, DMG_PAYLOAD_MID, DMG_PAYLOAD_LAST, DMG_IDX, DMG_BACKEND_ID, DMG_BACKEND_VER, DMG_LIBVER, DMG_IDX_N1, DMG_IDX_2_31, DMG_IDX_MAX, DMG_BACKEND_VER_0,
+       DMG_LIBVER_OTHER_PAYLOAD, DMG_BACKEND_ID_OTHER_PAYLOAD, DMG_TWIN, DMG_TWIN_OTHER_PAYLOAD, NDMG };
+static const char *dmg_name[NDMG] = { "payload-first", "payload-mid", "payload-last", "idx=k+m", "foreign-backend-id", "backend-version+1", "libec-version+1", "idx=k+m+1", "idx=2^31", "idx=2^32-1", "backend-version=0",
+                                      "libec-version+1,other-payload-consistently-stamped", "foreign-backend-id,other-payload-consistently-stamped", "opposite-endian-twin", "opposite-endian-twin,other-payload" };
+/* a different payload under a payload checksum that matches it: only the header field says the fragment is not ours */
+static void other_payload(uint8_t *f, size_t flen)
+{
+    size_t bs = flen - WIRE_HDR; for (size_t i = 0; i < bs; i++) f[WIRE_HDR + i] ^= (uint8_t)(0x35 + 7 * i);
+    if (f[20] == CHKSUM_CRC32) put_le32(f + 21, crc_std(f + WIRE_HDR, bs));
+}
 static void damage(uint8_t *f, size_t flen, int kind, int n)
 {
     size_t bs = flen - WIRE_HDR;
@@ -730,6 +739,10 @@ static void damage(uint8_t *f, size_t flen, int kind, int n)
     case DMG_IDX_2_31: put_le32(f, 0x80000000u); break;
     case DMG_IDX_MAX: put_le32(f, 0xffffffffu); break;
     case DMG_BACKEND_VER_0: put_le32(f + 55, 0); break;
+    case DMG_LIBVER_OTHER_PAYLOAD: other_payload(f, flen); put_le32(f + 63, liberasurecode_get_version() + 1); break;
+    case DMG_BACKEND_ID_OTHER_PAYLOAD: other_payload(f, flen); f[54] = (uint8_t)(f[54] == EC_BACKEND_FLAT_XOR_HD ? EC_BACKEND_LIBERASURECODE_RS_VAND : EC_BACKEND_FLAT_XOR_HD); break;
+    case DMG_TWIN: wire_byteswap_twin(f); return;
+    case DMG_TWIN_OTHER_PAYLOAD: other_payload(f, flen); wire_seal(f, 0); wire_byteswap_twin(f); return;
     case DMG_BACKEND_ID: f[54] = (uint8_t)(f[54] == EC_BACKEND_FLAT_XOR_HD ? EC_BACKEND_LIBERASURECODE_RS_VAND : EC_BACKEND_FLAT_XOR_HD); break;
     case DMG_BACKEND_VER: put_le32(f + 55, le32(f + 55) + 1); break;
     case DMG_LIBVER: put_le32(f + 63, liberasurecode_get_version() + 1); break;
@@ -799,6 +812,26 @@ static void plan_c20(void)
                         }
                         if (out && ledger_has(out)) liberasurecode_decode_cleanup(s.desc, out);
                     }
+                }
+                /* a damaged copy listed BEFORE an intact copy of the same fragment: the intact one must still count */
+                for (int i = 0; i < n; i++) {
+                    if (!(S >> i & 1)) continue;
+                    if (!vh_case_begin("dup%d/damaged-copy-first/force1", i)) continue;
+                    vh_nontrivial();
+                    char **arr = (char **)(s.gptr.p + s.gptr.len) - (n + 1); int nf = 0;
+                    memcpy(w, enc_frag(&s, i), s.flen); damage(w, s.flen, DMG_PAYLOAD_MID, n);
+                    arr[nf++] = (char *)slot_put(0, w, s.flen); arr[nf++] = (char *)frag_at(&s, GP_END, i);
+                    for (int j = 0; j < n; j++) if ((S >> j & 1) && j != i) arr[nf++] = (char *)frag_at(&s, GP_END, j);
+                    uint32_t validE = full & ~S; int e = __builtin_popcount(validE);
+                    int within = is_xor(sh.be) ? e < sh.hd : (e <= sh.m && (!is_isa(sh.be) || isa_invertible(&sh, validE)));
+                    { char opn[96]; snprintf(opn, sizeof opn, "liberasurecode_decode:%s:force1", be_name(sh.be)); vh_op(opn); }
+                    char *out = NULL; uint64_t outlen = 0; vh_transitions(1);
+                    int rc = liberasurecode_decode(s.desc, arr, nf, s.flen, 1, &out, &outlen);
+                    int exact = rc == 0 && outlen == s.len && (!s.len || (out && !memcmp(out, s.data, s.len)));
+                    if (rc == 0 && !exact) vh_violation("invalid-fragment-changed-result", "S=0x%x, damaged copy of %d listed before its intact copy: forced decode returned success with wrong bytes", S, i);
+                    else if (rc > 0) vh_violation("positive-rc", "rc=%d", rc);
+                    else if (within && rc != 0) vh_violation("refused-although-valid-fragments-suffice", "S=0x%x, damaged copy of %d listed before its intact copy: the valid fragments are within tolerance but forced decode returned %d", S, i, rc);
+                    if (out && ledger_has(out)) liberasurecode_decode_cleanup(s.desc, out);
                 }
                 /* every single payload bit of every fragment, all fragments supplied: a flip that the checksum comparison fails to
                  * notice (e.g. only part of the stored value compared) would let a damaged data fragment through the fast path */
